@@ -46,7 +46,7 @@ def worker(kp, job):
     if core_doc:
         from harness import tokens
         tokens_acc = True
-    g = docs.gen_doc(rng, chords=not core_doc, max_spines=3, measures=rng.randint(1, 3))
+    g = docs.gen_doc(rng, chords=not core_doc, max_spines=3, measures=rng.randint(1, 3), early_end=(0.3 if idx % 3 == 0 else 0.0))
     if core_doc:
         # the claimed core: single notes without explicit accidental
         for row in g.rows():
